@@ -17,7 +17,8 @@ TECHNIQUE = 'runtime contract on the logicle transform vs an independent extende
 RULE = ('lattice T in {1,10,1023,2^18,1e6,1e8,1e-3,1e100,1e300,1.7e308} x M in {0.2..12} x W/M in {0,1e-9,..,1.5} plus random triples; display '
         'coordinates on a 2001-point grid of [0,M]; invalid triples; parameters derived from data sets with/without '
         'negative events, single/list, with/without known range; a real matplotlib axis; non-trivial = W > 0; '
-        'distinct = digest(T,M,W | data)')
+        'distinct = digest(T,M,W | data)'
+        ' Also: extreme T up to 1.7e308, data without a positive value (refusal), tiny negative events (W clamps at 0), explicit T/M/W overrides with data, numeric forms of inputs and parameters.')
 ASSUMPTIONS = ['forward values compared at rtol 1e-10 plus an absolute term scaled by T*10^-(M-W)*(1+p^2) (cancellation near s=W)']
 MIN_CHECKS = {'quick': 6000, 'thorough': 150000}
 REQUIRED_COUNTERS = ['chk:forward', 'chk:inverse', 'chk:derive', 'chk:refusal', 'chk:axis', 'chk:form']
